@@ -162,6 +162,8 @@ class ImplStore:
         if op == "np_reduce":
             f = NPRED[j["f"]]
             ax = j.get("axis")
+            if isinstance(ax, list):
+                ax = tuple(ax)
             r = f(O[j["obj"]]) if ax is None else f(O[j["obj"]], axis=ax)
             if isinstance(r, dnp.DNPData):
                 O[j["out"]] = r; return None
